@@ -152,6 +152,7 @@ def build_relic(cfg, extra_args=None, tag=None):
     lib = os.path.join(bdir, "lib", "librelic_s.a")
     with Lock("relic-" + name):
         if os.path.exists(lib) and os.path.exists(os.path.join(bdir, ".ok")):
+            os.utime(os.path.join(bdir, ".ok"))
             return bdir
         # evict older hashes of this configuration
         base = os.path.join(BUILD, "relic")
@@ -159,7 +160,15 @@ def build_relic(cfg, extra_args=None, tag=None):
         for d in os.listdir(base):
             # exactly <name>-<16 hex digits>: "ed255" must not evict "ed255-extnd-..."
             if re.fullmatch(re.escape(name) + r"-[0-9a-f]{16}", d) and d != os.path.basename(bdir):
-                shutil.rmtree(os.path.join(base, d), ignore_errors=True)
+                # a build of another source state may still be in use by a running check: only
+                # builds not used for two hours are evicted
+                okf = os.path.join(base, d, ".ok")
+                try:
+                    age = time.time() - os.path.getmtime(okf)
+                except OSError:
+                    age = 1e9
+                if age > 7200:
+                    shutil.rmtree(os.path.join(base, d), ignore_errors=True)
         shutil.rmtree(bdir, ignore_errors=True)
         cflags = "-Wno-error -D%s %s" % (GUARD, c.get("cflags", ""))
         args = ["cmake", "-G", "Ninja", "-S", REPO, "-B", bdir] + _COMMON + \
